@@ -2,7 +2,7 @@
    ExtrOcamlBasic only (bool, option, unit, list, prod, sumbool, sum mappings);
    N, Z, positive and nat stay the extracted inductive types; no Extract Constant. *)
 From Coq Require Import Extraction ExtrOcamlBasic.
-From Mos Require Import Str Xml Seq Spec Outcome Elements Classify Messages Merge Collection Proto Inspect S3 Cli.
+From Mos Require Import Str Xml Seq Spec Outcome Elements Classify Messages Merge Collection Proto Inspect S3 Cli Codec.
 Extraction Language OCaml.
 Separate Extraction
-  Str Xml Seq Spec Outcome Elements Classify Messages Merge Collection Proto Inspect S3 Cli.
+  Str Xml Seq Spec Outcome Elements Classify Messages Merge Collection Proto Inspect S3 Cli Codec.
